@@ -4,12 +4,16 @@ S16 = {"quick": 16, "thorough": 16}
 CHECKS = {
     "C01": dict(
         title="DHCPv4 encode->decode preserves every header field and option value",
-        stages=[dict(name="rt", shards=S16, timeout={"quick": 600, "thorough": 3000})],
+        stages=[dict(name="rt", shards=S16, timeout={"quick": 600, "thorough": 3000}),
+                dict(name="conc", run="TestConc", shards={"quick": 2, "thorough": 4}, timeout={"quick": 600, "thorough": 3000}),
+                dict(name="concrace", run="TestConc", race=True, shards={"quick": 2, "thorough": 4}, timeout={"quick": 600, "thorough": 3000}, env={"VERIF_SAMPLE": "8"})],
+        race_is_violation=True,
+        min_counters=["conc.cases"],
         rule="cases = (a) one packet per (code, boundary length) with lengths {0..3,252..258,507..513,762..768,1017..1023,4090..4096} "
              "for 8 codes (quick) / all 254 codes (thorough), (b) seeded random packets over the C01 domain (0..12 options, values 0..4096 B, "
              "nil/4-byte/16-byte IPs, hlen 0..16, names without NUL). Shape = (hlen, name length classes, multiset of (code class, value length "
              "class {0,1-254,255,256-509,510,511+}), 16-byte IP used); non-trivial iff some option is empty or >255 bytes, or hlen != 6, or a 16-byte IP form is used.",
-        technique="generated round-trip executions of the real encoder/decoder checked online against the generator's own record (reference-model monitor); decoded results are overwritten after judging (shared decoder state shows in later cases) with canaries on process-wide values",
+        technique="generated round-trip executions of the real encoder/decoder checked online against the generator's own record (reference-model monitor); the same monitor from 16 goroutines on values of their own (plain and under the race detector); large option areas (60 kB..1 MB) and decoded packets edited by their owner; decoded results are overwritten after judging (shared decoder state shows in later cases) with canaries on process-wide values",
         level_text="Every generated packet is encoded and decoded by the real library and compared field by field with the value the generator "
                    "recorded (not with the library's own view). Split boundaries are enumerated exhaustively per code; the rest is sampled. Held on the executions observed, not a proof.",
         level_note="Trusts the harness generator's record of the packet and Go's reflect-free projection of the public struct fields.",
@@ -72,14 +76,17 @@ CHECKS = {
         assumptions=["an option present with a non-nil empty slice is normalised to the decoder's form (nil) before the call"],
     ),
     "C02": dict(
-        min_counters=['edited_values', 'in_place_edits'],
+        min_counters=['edited_values', 'in_place_edits', 'conc.cases'],
         title="DHCPv6 encode->decode preserves messages, relay chains and every option type",
-        stages=[dict(name="rt", shards=S16, timeout={"quick": 900, "thorough": 3600})],
+        stages=[dict(name="rt", shards=S16, timeout={"quick": 900, "thorough": 3600}),
+                dict(name="conc", run="TestConc", shards={"quick": 2, "thorough": 4}, timeout={"quick": 900, "thorough": 3600}),
+                dict(name="concrace", run="TestConc", race=True, shards={"quick": 2, "thorough": 4}, timeout={"quick": 900, "thorough": 3600}, env={"VERIF_SAMPLE": "8"})],
+        race_is_violation=True,
         rule="generated values: Message (any non-relay type octet) or relay chain of depth 0..8, 0..20 options per level from every typed option code (set discovered at run time with "
              "ParseOption(code,nil) over all 65536 codes) plus unknown codes; nested IA_NA/IA_TA/IA_PD with addresses, prefixes, status codes; vendor options; NTP sub-options; relay-msg; embedded DHCPv4; "
              "4RD rules; addresses from classes {::, v4-mapped, link-local, multicast, v4-compatible, random}; all DUID kinds. Shape = sorted set of kind paths (e.g. relay/relaymsg/msg/iana/iaaddr/status); "
              "non-trivial iff >= 2 distinct typed option kinds or nesting depth >= 3.",
-        technique="generated round trips through the real encoder/decoder compared on a neutral value tree with the generator's record (oracle A) and with an independent RFC 8415 reference decoder applied to the emitted bytes (oracle B); cut-off copies decoded before each round trip; decoded results overwritten after judging",
+        technique="generated round trips through the real encoder/decoder compared on a neutral value tree with the generator's record (oracle A) and with an independent RFC 8415 reference decoder applied to the emitted bytes (oracle B); cut-off copies decoded before each round trip; the same monitor from 16 goroutines on values of their own (plain and under the race detector); decoded results overwritten after judging",
         level_text="Every generated value is encoded and decoded by the real library; the decoded value (projected by reflection onto a neutral tree) must equal the tree the generator built, and the emitted "
                    "bytes must be read by an independently written decoder as exactly that tree, so symmetric encode/decode errors are visible. Evidence lists per-code hit counts; a typed code without generator would be listed as reduced_oracle.",
         level_note="Trusts harness/ref6 + reflabel + ref4 (reference decoders), harness/proj (reflection projection) and the generator's record.",
